@@ -150,7 +150,10 @@ def main(tier):
     ev_hash = set()
     for info in infos:
         nevents += info["matched"]
-        if not info["accepted"]:
+        if not info["accepted"] and info.get("truncated"):
+            # the recorder died in the middle of an event: the complete events were accepted, the execution was not
+            unknown.append({"kind": "trace_truncated", "file": info["file"], "events_before_the_cut": info["matched"]})
+        elif not info["accepted"]:
             # a rejection is reported only if a second run rejects at the same line
             again = vf.validate_trace("Trace_Permutahedral", "Trace_Permutahedral.cfg", info["file"],
                                       tag="perm-confirm-%d" % os.getpid(), timeout=900)
